@@ -34,8 +34,9 @@ MANIFEST = {
             "library (FindLookups 100x in-process + fresh processes, NewLayouter/Layout on in-memory and re-read "
             "fonts, kern-only files assembled with header functions) and every recorded call is accepted or "
             "rejected by TLC against LayoutPipeTrace.tla.",
-    "note": "Trusted: TLC, the font builders of the harness, the JSON trace encoding. Only simple lookups (GSUB 1, 4, "
-            "GPOS 2, no flags) occur: the lookup engine is C06/C07. The property does not say which language system "
+    "note": "Trusted: TLC, the font builders of the harness, the JSON trace encoding. Lookups: GSUB 1, 2, 4, GPOS 1, 2 (glyph "
+            "pairs and class pairs), 4, with the flags IgnoreBaseGlyphs/IgnoreLigatures/IgnoreMarks over GDEF classes, "
+            "semantics of DESIGN.md appendix A; contextual lookups, mark filtering sets and attachment types are C06/C07. The property does not say which language system "
             "a tag selects: any is accepted, but it must be one (same answer on every call, in every process). "
             "minimum+override kern subtables (bounded from below / replaced) and switching off the synthetic liga feature: either reading is accepted, but one reading for the whole run. "
             "A file without GSUB whose non-zero widths are all equal may or may not get ligatures (one answer per file); two "
@@ -344,8 +345,15 @@ def _intended(ctx, trace):
 def run(ctx):
     _lock_subdir(ctx)
     ctx.assumptions += [
-        "only simple lookups (GSUB single/multiple/ligature, GPOS single/pair adjustment, lookup flags 0); the lookup engine is "
-        "C06/C07; a multiple substitution leaves the text on the first replacement glyph (DESIGN.md appendix A)",
+        "lookups: GSUB single/multiple/ligature, GPOS single, pair (glyph and class based, class 0 included), mark-to-base, "
+        "with IgnoreBaseGlyphs/IgnoreLigatures/IgnoreMarks; semantics of DESIGN.md appendix A (a multiple substitution leaves "
+        "the text on the first glyph; glyphs skipped inside a ligature move behind it; the base of a mark is the nearest "
+        "preceding glyph of the base coverage); contextual lookups, filtering sets, attachment types are left to C06/C07",
+        "feature selection is a function of the meaning of a table: the in-memory table, the library's encoding read back "
+        "and two re-stored files (layx.Relayout: shared language-system / script / feature tables) answer one request and "
+        "must agree",
+        "post.isFixedPitch, the PANOSE proportion digit and numberOfHMetrics are redundant: files with these fields set "
+        "against the widths must lay out as the widths say",
         "the property does not say which language system a request tag selects: every choice is accepted, but it must "
         "be the same for every call with that tag (in-process, new layouters, fresh processes)",
         "minimum+override kern subtables: the OpenType text admits 'bounded from below' and 'replaced'; either is accepted "
